@@ -218,9 +218,9 @@ fn or_pred(ev: &parser::Result<Event<Cucumber<SimWorld>>>, _: &cli::Compose<cli:
 
 pub const STACKS_C11: &[&str] = &["normalize"];
 pub const STACKS_C13: &[&str] = &[
-    "fos", "fos_custom", "repeat_skipped", "repeat_failed", "repeat_if", "tee", "or", "fos_repeat_failed", "repeat_failed_tee", "tee_of_fos", "or_of_repeat",
+    "fos", "fos_custom", "repeat_skipped", "repeat_failed", "repeat_if", "tee", "or", "fos_repeat_failed", "repeat_failed_tee", "tee_of_fos", "or_of_repeat", "repeat_all",
 ];
-pub const STACKS_C12: &[&str] = &["summarize", "repeat_failed_summarize", "repeat_skipped_summarize", "summarize_normalize", "fos_summarize"];
+pub const STACKS_C12: &[&str] = &["summarize", "repeat_failed_summarize", "repeat_skipped_summarize", "summarize_normalize", "fos_summarize", "repeat_all_summarize"];
 
 /// C12 on a real-runner history: `Summarize<Normalize<Rec>>` (the shipped default shape) as the
 /// writer of the whole pipeline, driven by a simulated run of `runner::Basic`.
@@ -406,6 +406,13 @@ pub fn run_world_c(plan: &Rc<Plan>, which: &str) -> Result<CHistory, String> {
             let r = drive(&core, &sh, w, e, items, &mut |_| {});
             finish!(r, [("out", la)]);
         }
+        "repeat_all" => {
+            // a custom filter that selects everything, run-level events and run-Finished included
+            let (a, la) = Rec::new(&sh, [0; 6]);
+            let w = a.repeat_if(|_: &parser::Result<Event<Cucumber<SimWorld>>>| true);
+            let r = drive(&core, &sh, w, e, items, &mut |_| {});
+            finish!(r, [("out", la)]);
+        }
         "tee" => {
             let (a, la) = Rec::new(&sh, rand_stats());
             let (b, lb) = Rec::new(&sh, rand_stats());
@@ -488,7 +495,7 @@ pub fn run_world_c(plan: &Rc<Plan>, which: &str) -> Result<CHistory, String> {
             let r = drive(&core, &sh, w, comp(), items, &mut |_| {});
             finish!(r, [("left", la), ("right", lb)]);
         }
-        "summarize" | "repeat_failed_summarize" | "repeat_skipped_summarize" | "summarize_normalize" | "fos_summarize" => {
+        "summarize" | "repeat_failed_summarize" | "repeat_skipped_summarize" | "summarize_normalize" | "fos_summarize" | "repeat_all_summarize" => {
             let (a, la) = Rec::new(&sh, [0; 6]);
             let mut grab = |w: &writer::Summarize<Rec>, numbers: &mut BTreeMap<String, i64>| {
                 let (sc, st) = (*w.scenarios_stats(), *w.steps_stats());
@@ -524,6 +531,16 @@ pub fn run_world_c(plan: &Rc<Plan>, which: &str) -> Result<CHistory, String> {
                 }
                 "fos_summarize" => {
                     let w = a.summarized().fail_on_skipped();
+                    let r = drive(&core, &sh, w, e, items, &mut |w| {
+                        stats_of!(w, "");
+                        grab(w, &mut numbers);
+                    });
+                    finish!(r, [("out", la)]);
+                }
+                "repeat_all_summarize" => {
+                    // Repeat outside Summarize with a filter selecting everything: run-Finished itself is
+                    // replayed into Summarize (which must neither count nor write its summary again)
+                    let w = a.summarized().repeat_if(|_: &parser::Result<Event<Cucumber<SimWorld>>>| true);
                     let r = drive(&core, &sh, w, e, items, &mut |w| {
                         stats_of!(w, "");
                         grab(w, &mut numbers);
@@ -843,6 +860,7 @@ fn repeat_matches(which: &str, e: &Ev) -> bool {
         "skipped" => matches!(e.k, K::StepSkipped { .. }),
         "failed" => matches!(e.k, K::StepFailed { .. } | K::HookFailed(..) | K::ParseError(_)),
         "if" => matches!(e.k, K::FeatureStarted | K::FeatureFinished),
+        "all" => true,
         _ => false,
     }
 }
@@ -910,6 +928,7 @@ pub fn c13(plan: &Plan, ch: &CHistory, out: &mut Vec<Violation>) {
         "repeat_skipped" => cmp_streams("C13", "repeat", "repeat_skipped", &strip(&ch.outputs["out"]), &expect_repeat(input, "skipped"), out),
         "repeat_failed" => cmp_streams("C13", "repeat", "repeat_failed", &strip(&ch.outputs["out"]), &expect_repeat(input, "failed"), out),
         "repeat_if" => cmp_streams("C13", "repeat", "repeat_if", &strip(&ch.outputs["out"]), &expect_repeat(input, "if"), out),
+        "repeat_all" => cmp_streams("C13", "repeat", "repeat_all", &strip(&ch.outputs["out"]), &expect_repeat(input, "all"), out),
         "tee" => {
             cmp_streams("C13", "tee", "tee-left", &strip(&ch.outputs["left"]), input, out);
             cmp_streams("C13", "tee", "tee-right", &strip(&ch.outputs["right"]), input, out);
